@@ -10,3 +10,6 @@ func raceOn()  {}
 func RaceAcquire(p unsafe.Pointer)      {}
 func RaceRelease(p unsafe.Pointer)      {}
 func RaceReleaseMerge(p unsafe.Pointer) {}
+
+func RaceOff() {}
+func RaceOn()  {}
